@@ -35,6 +35,8 @@ def preprocess(path, defines, incdirs):
 
 
 class Machine(object):
+    STATE_ADDR = STATE
+    OPER2_ADDR = OPER2
     MASK = 0xFFFFFFFF
     ENDIAN = "little"
     COMMENT = None
@@ -846,6 +848,8 @@ class Xtensa(Machine):
 # =========================================================================== AVR
 class Avr(Machine):
     MASK = 0xFFFF
+    STATE_ADDR = 0x1000      # 16-bit data address space
+    OPER2_ADDR = 0x2000
 
     def __init__(self, text):
         Machine.__init__(self, text)
@@ -874,6 +878,8 @@ class Avr(Machine):
         self.mem[self.spv] = self.retaddr & 0xFF
         self.mem[self.spv - 1] = self.retaddr >> 8
         self.spv -= 2
+        if a0 > 0xFFFF or a2 > 0xFFFF:
+            raise EmuError("AVR data addresses are 16 bits")
         self.r[24], self.r[25] = a0 & 0xFF, a0 >> 8
         self.r[22], self.r[23] = a1 & 0xFF, junk[5] & 0xFF     # uint8_t argument: upper byte unspecified
         self.r[20], self.r[21] = a2 & 0xFF, a2 >> 8
